@@ -819,3 +819,42 @@ Proof.
     + unfold cap_of. rewrite NC. reflexivity.
     + intros RF. unfold opts_valid in OV. rewrite RF in OV. cbn [orb] in OV. apply N.ltb_lt in OV. exact OV.
 Qed.
+
+(* Open on a directory whose files are those of m: nothing stale, current chunk file ends at its
+   fileOffset and nothing is buffered *)
+Lemma reopen_core m a o :
+  Rd m a -> l_meta a = m_meta m ->
+  m_stale m = false -> h_fo (m_app m) = len (cur_file m) -> h_uw (m_app m) = h_fl (m_app m) ->
+  opts_valid o = true -> nocap o = true ->
+  Rm (m_reopen m o)
+     (mklog (l_data a) (o_ro o) false (l_meta a) (cap_of o) (l_size a) (l_size a) (l_disc a) false).
+Proof.
+  intros D ME ST EF U OV NC.
+  assert (MAXI : forall i F, In (i, F) (m_disk m) -> i <= m_cur m).
+  { unfold m_stale in ST. intros i F I. pose proof (existsb_false _ _ ST (i, F) I) as Q. cbn in Q.
+    apply N.ltb_ge in Q. exact Q. }
+  pose proof (rd_ex _ _ D) as EX.
+  assert (DM : dmax (m_disk m) = Some (m_cur m)) by (apply dmax_spec; auto).
+  unfold m_reopen. rewrite DM. unfold m_open_chunk.
+  destruct (dget (m_disk m) (m_cur m)) as [F|] eqn:G; [|congruence].
+  assert (CF : cur_file m = F) by (unfold cur_file, m_file; rewrite G; reflexivity).
+  pose proof (rd_wf _ _ D) as W. rewrite CF in *.
+  assert (CO : content (m_app m) F = F).
+  { unfold content. rewrite U, EF, take_all, slice_empty by (clear; lia). apply app_nil_r. }
+  set (oo := m_oopts _ true).
+  assert (OO : oo = ro_nobuf o).
+  { unfold oo, m_oopts, ro_nobuf. cbn [m_ro m_buf m_retry m_auto andb]. destruct (o_ro o); reflexivity. }
+  rewrite OO.
+  pose proof (h_open_wf F o OV) as WO.
+  pose proof (content_open F (ro_nobuf o)) as COO.
+  split.
+  - destruct D. rewrite CF in *. constructor; unfold m_with, cur_file, m_file; cbn [m_disk m_cur m_app m_cache m_fs cget]; lsimp; auto.
+    + rewrite G. exact WO.
+    + rewrite <- (len_content _ _ WO), COO. eapply rd_lenF0; eauto.
+    + rewrite G, COO, <- CO. exact rd_data0.
+    + intros; discriminate.
+  - unfold nocap in NC. apply negb_true_iff in NC.
+    constructor; unfold m_with; cbn [m_ro m_closed m_meta m_app m_retry m_auto m_buf]; lsimp; auto; try reflexivity.
+    + unfold cap_of. rewrite NC. reflexivity.
+    + intros RF. unfold opts_valid in OV. rewrite RF in OV. cbn [orb] in OV. apply N.ltb_lt in OV. exact OV.
+Qed.
